@@ -768,6 +768,11 @@ func genValue(t *rapid.T) ValueCase {
 
 func TestPropValueRoundTrip(t *testing.T) { valueProp.Rapid(t, genValue) }
 
+// TestConc*: batches of cases evaluated at the same time on separate goroutines (vh.Prop.Concurrent).
+func TestConcValueRoundTrip(t *testing.T) { valueProp.Concurrent(t, genValue, 8, 3) }
+func TestConcInvalidValues(t *testing.T)  { invalidProp.Concurrent(t, genInvalid, 8, 3) }
+func TestConcStringsMutated(t *testing.T) { mutProp.Concurrent(t, genMutated, 8, 3) }
+
 // TestValueEdgeCases feeds the boundary item values deterministically (independent of the seed):
 // every int64 edge, every single printable character as a string, every token punctuation
 // character, byte sequences of length 0..7 with all-zero / all-one / mixed bits, each as a lone
